@@ -146,7 +146,7 @@ func edgeInt64s() []int64 {
 }
 
 // setterPres is the list of receiver pre-states used by the setter layers (C10 widens it to all of them).
-var setterPres = []int{preFresh, preLonger}
+var setterPres = []int{preFresh, preLonger, preInexact}
 
 func setterLayers(j judge, tier string) []Layer {
 	thorough := tier == "thorough"
@@ -730,6 +730,12 @@ func getterLayers(tier string) []Layer {
 				xs = append(xs, mkWords(false, v, e, 0, 0), mkWords(true, v, e, 0, 0))
 			}
 		}
+		// every position of the decimal point inside (and just outside) a 3-word mantissa
+		for _, v := range WVecs(3, []uint64{0, BW - 1, 8123456789012999999}) {
+			for e := int64(-1); e <= 58; e++ {
+				xs = append(xs, mkWords(false, v, e, 0, 0), mkWords(true, v, e, 0, 0))
+			}
+		}
 		for _, f := range []int8{fZero, fInf} {
 			xs = append(xs, mkSpecial(f, false, 0, 0), mkSpecial(f, true, 0, 0))
 		}
@@ -744,7 +750,7 @@ func getterLayers(tier string) []Layer {
 		layers = append(layers, Layer{
 			Name:   "G2-values",
 			Units:  (len(xs) + chunk - 1) / chunk,
-			Bounds: fmt.Sprintf("x in ±D(%d)×10^[-3..22] ∪ ±W(3,S7)×14 exponents (-20..60) ∪ {±0, ±Inf (also with a history: the variable held a finite value before), huge/tiny exponents} (%d values): all getters", k, len(xs)),
+			Bounds: fmt.Sprintf("x in ±D(%d)×10^[-3..22] ∪ ±W(3,S7)×14 exponents (-20..60) ∪ ±W(3,{0,B−1,8123456789012999999})×every exponent −1..58 ∪ {±0, ±Inf (also with a history: the variable held a finite value before), huge/tiny exponents} (%d values): all getters", k, len(xs)),
 			Run: func(c *Ctx, u int) {
 				for i := u * chunk; i < (u+1)*chunk && i < len(xs); i++ {
 					if xs[i].Form == fFinite && (xs[i].Exp > 100000 || xs[i].Exp < -100000) {
@@ -790,6 +796,33 @@ func getterLayers(tier string) []Layer {
 						for _, e := range []int64{int64(19 * n), int64(19*n) - 1, int64(19*n) + 1, int64(19*n) + 40, int64(19*n) - 19, 5} {
 							for _, neg := range []bool{false, true} {
 								getterCase(c, mkWords(neg, v, e, 0, 0))
+							}
+						}
+					}
+				}
+			},
+		})
+	}
+	// G4: sparse long mantissas: one non-zero word at every index below the top word, the decimal point
+	// just above / just below / inside that word (loops that scan the words for a fractional part or
+	// for trailing zeros must look at every one of them)
+	{
+		lens := []int{3, 4, 5, 6, 7, 8, 9, 12, 13, 16, 17, 20, 33}
+		layers = append(layers, Layer{
+			Name:   "G4-sparse-long-mantissas",
+			Units:  len(lens),
+			Bounds: fmt.Sprintf("all getters on n-word mantissas (n in %v) with top word {10^18, 5·10^18+1}, zero words and one word in {1, 10^18, 5·10^18} at every index i below the top; decimal point at 19(n−i), 19(n−i)−1, 19(n−i−1), 19(n−i−1)+1, 19n; both signs", lens),
+			Run: func(c *Ctx, u int) {
+				n := lens[u]
+				for i := 0; i < n-1; i++ {
+					for _, w := range []uint64{1, BW / 10, BW / 2} {
+						for _, top := range []uint64{BW / 10, BW/2 + 1} {
+							v := make([]uint64, n)
+							v[n-1], v[i] = top, w
+							for _, e := range []int64{int64(19 * (n - i)), int64(19*(n-i)) - 1, int64(19 * (n - i - 1)), int64(19*(n-i-1)) + 1, int64(19 * n)} {
+								for _, neg := range []bool{false, true} {
+									getterCase(c, mkWords(neg, v, e, 0, 0))
+								}
 							}
 						}
 					}
@@ -934,6 +967,62 @@ func rawLayers(tier string) []Layer {
 												return fmt.Sprintf("SetBitsExp(%s, 7) prec=%d mode=%s pre=%s", wordsKey(raw), p, modeName(m), preNames[pre])
 											}
 											judgeSetter(c, judgeValue, key, z, pv, Val{Form: fFinite, Coef: ci, E10: 7 - int64(n)*DW}, p, m)
+										}
+									}
+								}
+							}
+						}
+					}
+				}
+			},
+		})
+	}
+	// R4: every normalisation shift 0..18 (top word with 1..19 digits) over lower words that stress the
+	// split of a word into high and low digits at that shift
+	{
+		low := []uint64{0, 1, BW - 1, BW / 2, BW/2 - 1, 8123456789012999999, 7160864685202999999, 1999999999999999999, 9000000000000000001, 5555555555555555555, 1234567890123456789}
+		layers = append(layers, Layer{
+			Name:   "R4-every-normalisation-shift",
+			Units:  19,
+			Bounds: fmt.Sprintf("SetBitsExp of 2- and 3-word slices whose top word has d = 1..19 digits (10^(d-1), 10^d-1, 314159…) over lower words from %v (all pairs); receiver precision {0, 19, 30, 58}; modes Even/ToZero/AwayFromZero; receiver pre-states {fresh, held-longer}; BitsExp afterwards has every word below the base", low),
+			Run: func(c *Ctx, u int) {
+				d := u + 1
+				pd := uint64(1)
+				for i := 1; i < d; i++ {
+					pd *= 10
+				}
+				tops := []uint64{pd, pd*10 - 1, 3141592653589793238 / (BW / 10 / pd)}
+				for _, top := range tops {
+					for _, a := range low {
+						for bi := -1; bi < len(low); bi++ {
+							raw := []uint64{a, top}
+							if bi >= 0 {
+								raw = []uint64{low[bi], a, top}
+							}
+							ci := wordsToInt(raw)
+							for _, p := range []uint32{0, 19, 30, 58} {
+								for _, m := range []uint8{ToNearestEven, ToZero, AwayFromZero} {
+									for _, pre := range []int{preFresh, preLonger} {
+										if c.Skip() {
+											continue
+										}
+										z := buildPre(pre, p, m)
+										pv, _ := protect(func() { z.SetBitsExp(toWords(raw), 3) })
+										key := func() string {
+											return fmt.Sprintf("SetBitsExp(%s, 3) prec=%d mode=%s pre=%s", wordsKey(raw), p, modeName(m), preNames[pre])
+										}
+										pp := p
+										if pp == 0 {
+											pp = uint32(len(raw)*DW + 34)
+										}
+										judgeSetter(c, judgeValue, key, z, pv, Val{Form: fFinite, Coef: ci, E10: 3 - int64(len(raw))*DW}, pp, m)
+										if pv == nil {
+											bm, _ := z.BitsExp()
+											for _, w := range bm {
+												if uint64(w) >= BW {
+													c.Fail(key()+" BitsExp", fmt.Sprintf("word %d is not below the base", uint64(w)))
+												}
+											}
 										}
 									}
 								}
